@@ -1,2 +1,155 @@
--- driver stub (not built yet)
-def main : IO Unit := pure ()
+import QmcModel.Proto
+import QmcModel.Stepper
+open Qmc Qmc.Proto
+
+/-! Driver for C17: runs the model (`measureLoop`, `chunkRun`, `itimeStates`) on the inputs of
+harness/src/bin/c17.rs and renders the same observable tokens. -/
+
+def nanOr (r : Option Rat) : String :=
+  match r with
+  | some x => showApprox x
+  | none => "nan"
+
+def scriptN (ns : List Nat) (age : Nat) : Nat :=
+  if age = 0 || ns.isEmpty then 0 else ns.getD ((age - 1) % ns.length) 0
+
+def stepChar (sRead nRead : Bool) : Char :=
+  match sRead, nRead with
+  | true, true => 'm'
+  | false, true => 'n'
+  | true, false => 's'
+  | false, false => '-'
+
+/-- `measure <variant> T f beta off nscript ziplen` -/
+def doMeasure (variant : String) (T : Nat) (fTok : String) (β off : Rat) (ns : List Nat) (ziplen : Nat) : String :=
+  let f : Nat := if variant == "steps" then 1 else if fTok == "none" then 1 else parseNat fTok
+  if measurePanics T f then "panic" else
+  let step : Nat → Nat := (· + 1)
+  -- run 1: scripted n, fold = log of ages
+  let r := measureLoop step (scriptN ns) (pushFold id) T f 0 []
+  -- run 2: n = 2^age, so the binary digits of total_n tell at which steps n was read
+  let r2 := measureLoop step (fun a => 2 ^ a) (fun (_ : Unit) _ => ()) T f 0 ()
+  let items := (List.range ziplen).map (· + 100)
+  let zipCalls : List (Nat × Nat) := (r.acc.foldl zipStep (some items, [])).2
+  let stateReadAges : List Nat :=
+    if variant == "self" then [] else if variant == "zip" then zipCalls.map (·.2) else r.acc
+  let log := (List.range T).map fun k =>
+    stepChar (stateReadAges.contains (k + 1)) (r2.totalN.testBit (k + 1))
+  let calls : String :=
+    if variant == "steps" then "-"
+    else if variant == "zip" then showList (fun (p : Nat × Nat) => s!"{p.1}:{p.2}") zipCalls
+    else showList (fun (a : Nat) => s!"0:{a}") r.acc
+  let avg : Option Rat := if r.measured = 0 then none else some ((r.totalN : Rat) / (r.measured : Rat))
+  s!"{String.ofList log}E {calls} {r.st} {nanOr avg} {nanOr (measureEnergy β off r)}"
+
+/-! tempering -/
+
+structure Rep where
+  gid : Nat
+  age : Nat
+  deriving Repr, BEq
+
+def bitsOf (width v : Nat) : List Bool := (List.range width).reverse.map fun b => v.testBit b
+def ofBits (bs : List Bool) : Nat := bs.foldl (fun a b => a * 2 + (if b then 1 else 0)) 0
+
+def encRep (r : Rep) : List Bool := bitsOf 4 r.gid ++ bitsOf 12 r.age
+def decRep (s : List Bool) : Rep := { gid := ofBits (s.take 4), age := ofBits (s.drop 4) }
+def showRep (r : Rep) : String := s!"{r.gid}.{r.age}"
+
+def swapAt (rs : List Rep) (a b : Nat) : List Rep :=
+  match rs[a]?, rs[b]? with
+  | some x, some y => (rs.set a y).set b x
+  | _, _ => rs
+
+abbrev SwapScript := List (List (Nat × Nat))
+
+def mockSys (nss : List (List Nat)) (βs offs : List Rat) : ReplicaSys Rep SwapScript :=
+  { step := fun r => { r with age := r.age + 1 }
+    n := fun r => scriptN (nss.getD (r.gid % nss.length) []) r.age
+    state := encRep
+    energy := fun i a => energyForAvgN (βs.getD i 1) (offs.getD i 0) a
+    swap := fun c =>
+      match c.2 with
+      | [] => c
+      | sw :: rest => (sw.foldl (fun rs p => swapAt rs p.1 p.2) c.1, rest) }
+
+def parseSwapScript (s : String) : SwapScript :=
+  if s == "-" then [] else
+  (s.splitOn ";").map fun step =>
+    if step == "_" then [] else
+    (step.splitOn ".").filterMap fun pr =>
+      match pr.splitOn "-" with
+      | [a, b] => some (parseNat a, parseNat b)
+      | _ => none
+
+/-- a schedule for the model of the parallel driver: round robin from the last slot down -/
+def revRoundRobin (t : Nat) (c : List Rep × SwapScript) : List Nat :=
+  (List.range t).flatMap fun _ => (List.range c.1.length).reverse
+
+def renderLog (showW : Bool) (log : List Ev) : String :=
+  let s := String.join (log.map fun e =>
+    match e with
+    | Ev.adv t => String.ofList (List.replicate t 'm') ++ "E"
+    | Ev.swap => if showW then "W" else ""
+    | Ev.sample => "S")
+  if s.isEmpty then "-" else s
+
+def doTemper (par : Bool) (T s f nrep : Nat) (βs offs : List Rat) (nss : List (List Nat)) (script : SwapScript) : String :=
+  if chunkPanics nrep f then "panic" else
+  let R := mockSys nss βs offs
+  let c0 : List Rep × SwapScript := ((List.range nrep).map fun i => { gid := i, age := 0 }, script)
+  let C := if par then parallelContainer R revRoundRobin else serialContainer R
+  let x := chunkRun C T s f c0
+  -- `tempering_step` returns before touching anything with <= 1 replica, `parallel_tempering_step` only when empty
+  let showW := if par then decide (1 ≤ nrep) else decide (2 ≤ nrep)
+  let logStr := renderLog showW x.log
+  let perSlot := (List.range nrep).map fun i =>
+    let samples := x.samples.map fun row => decRep (row.getD i [])
+    let e : Option Rat := if T = 0 then none else some (chunkEnergy T x i)
+    s!"{logStr} {showList showRep samples} {nanOr e}"
+  let fin := showList showRep x.c.1
+  let left := if x.c.2.isEmpty then "" else " LEFT"
+  String.intercalate " " (perSlot ++ [fin]) ++ left
+
+def parseNss (s : String) : List (List Nat) :=
+  if s == "-" then [] else (s.splitOn ",").map fun t => (t.splitOn ".").map parseNat
+
+def doIsingM (T f : Nat) (β off : Rat) (nseq : List Nat) : String :=
+  let r := measureLoop (· + 1) (fun a => if a = 0 then 0 else nseq.getD (a - 1) 0) (pushFold id) T f 0 []
+  s!"{r.acc.length} {nanOr (measureEnergy β off r)}"
+
+def doIsingT (T s f nrep : Nat) (βs offs : List Rat) (nss : List (List Nat)) : String :=
+  let R : ReplicaSys Rep Unit :=
+    { step := fun r => { r with age := r.age + 1 }
+      n := fun r => if r.age = 0 then 0 else (nss.getD r.gid []).getD (r.age - 1) 0
+      state := encRep
+      energy := fun i a => energyForAvgN (βs.getD i 1) (offs.getD i 0) a
+      swap := id }
+  let c0 : List Rep × Unit := ((List.range nrep).map fun i => { gid := i, age := 0 }, ())
+  let x := chunkRun (serialContainer R) T s f c0
+  String.intercalate " " ((List.range nrep).map fun i =>
+    s!"{x.samples.length} {nanOr (if T = 0 then none else some (chunkEnergy T x i))}")
+
+def doEdgeTemper (T s f nrep : Nat) : String :=
+  if chunkPanics nrep f then "panic steps=0 div0" else
+  let C : Container Unit := { advance := fun _ c => (c, fun _ => 0), swapStep := id, states := fun _ => [] }
+  let x := chunkLoop C s f 5000 (chunkInit T s f ())
+  if x.remaining = 0 then "returned" else "stuck"
+
+def step (toks : List String) : String :=
+  match toks with
+  | ["measure", variant, T, f, β, off, ns, zl] =>
+    doMeasure variant (parseNat T) f (parseRat β) (parseRat off) (parseNats ns) (parseNat zl)
+  | ["temper", drv, T, s, f, nrep, βs, offs, nss, script] =>
+    doTemper (drv == "parallel") (parseNat T) (parseNat s) (parseNat f) (parseNat nrep) (parseRats βs) (parseRats offs)
+      (parseNss nss) (parseSwapScript script)
+  | ["isingm", T, f, β, off, nseq] => doIsingM (parseNat T) (parseNat f) (parseRat β) (parseRat off) (parseNats nseq)
+  | ["isingt", T, s, f, nrep, βs, offs, nss] =>
+    doIsingT (parseNat T) (parseNat s) (parseNat f) (parseNat nrep) (parseRats βs) (parseRats offs) (parseNss nss)
+  | ["itime", st, slots] =>
+    let states := itimeStates (parseBits st) (parseSlots slots)
+    s!"{states.length} {showList showBits states}"
+  | ["edge", "temper", T, s, f, nrep] => doEdgeTemper (parseNat T) (parseNat s) (parseNat f) (parseNat nrep)
+  | _ => "bad-op"
+
+def main : IO Unit := run step
